@@ -110,6 +110,11 @@ def entropic_case(N, M=0):
         # code's log cancels against exp), and exp is strictly increasing, so  rho R t  <=>  exp(a*rho) R exp(a*t).
         mean = sum(xs[1:], xs[0]) / N
         E = lambda t: api.exp(a * t)  # noqa: E731
+        if c.mode == "sym":
+            # true hints that introduce the atoms exp(-a x_i), exp(-a y_i) (whatever reference point the executed log-sum-exp uses, the
+            # add-law instances then connect it to the individual outcomes)
+            for e in list(xs) + list(ys):
+                c.assume(api.gt(api.exp(-a * e), 0))
         c.check("entropic monotone", api.implies(dom, api.ge(E(rx), E(ry))))
         rxc = rho(x + cst)
         if c.mode == "sym":
